@@ -13,11 +13,11 @@ VERIF = os.path.dirname(os.path.dirname(os.path.abspath(__file__)))
 CHECKS = {
     'C01': dict(level='exploration', ref='4/C01',
                 technique='runtime monitoring: differential oracle (hashlib/hmac/pbkdf2, GF(2) polynomial division) over ASan+UBSan-instrumented executions of the real alg/*.c',
-                text='Real alg/*.c objects run under ASan+UBSan on every length 0..600 x 3 update partitions, every HMAC key length 0..200, every PBKDF2 dkLen 1..200, every CRC32C (length 0..80, alignment 0..15), random cases, two >2^32-bit streams per hash (chunked and one single update >= 2^29 bytes), PBKDF2 outputs beyond 255/511 blocks, overlapping arguments (digest / tag / derived key written over the message, the key, the salt or the password, in-place chains) where the unchanged library supports them, and ONE call of 2^32+d bytes (SHA-1, SHA-256, CRC32C in quick; every algorithm in thorough) over address ranges in which one 2 MiB memory file is mapped 2049 times; CRC records with an embedded checksum and a call boundary behind it; six builds (as the CPU allows, portable, 32-bit SSE4.2 CRC loop, SSE2 SHA-256, and two with -DNDEBUG); each result is compared with an independent implementation. Sampling, not proof: lengths beyond 64 KiB are covered by the long streams only.',
+                text='Real alg/*.c objects run under ASan+UBSan on every length 0..600 x 3 update partitions, every HMAC key length 0..200, every PBKDF2 dkLen 1..200, every CRC32C (length 0..80, alignment 0..15), random cases, two >2^32-bit streams per hash (chunked and one single update >= 2^29 bytes), PBKDF2 outputs beyond 255/511 blocks, overlapping arguments (digest / tag / derived key written over the message, the key, the salt or the password, in-place chains) where the unchanged library supports them, and ONE call of 2^32+d bytes (SHA-1, SHA-256, CRC32C in quick; every algorithm in thorough) over address ranges in which one 2 MiB memory file is mapped 2049 times; CRC records with an embedded checksum and a call boundary behind it; between the updates of the context under test a second hash context and a second HMAC context of the same algorithm (alive across cases) and one-shot calls are used; six builds (as the CPU allows, portable, 32-bit SSE4.2 CRC loop, SSE2 SHA-256, and two with -DNDEBUG); each result is compared with an independent implementation. Sampling, not proof: lengths beyond 64 KiB are covered by the long streams only.',
                 note='Trusts Python hashlib/hmac (OpenSSL) as the specification; gcc 12 ASan/UBSan.'),
     'C02': dict(level='exploration', ref='4/C02',
                 technique='runtime monitoring: differential against an independent byte-oriented FIPS-197 / SP 800-38A reference (harness/common/refaes.c, self-checked on the FIPS vectors, spot-checked with openssl enc) under ASan+UBSan, AES-NI build and OpenSSL-software build; long streams really run across blocks 256 and 65536; far-offset streams are positioned with the LIBCPERCIVA_VERIF hook crypto_aesctr_verif_seek at block 2^e - d (e = 8..56) and cross 2^e with bulk, sub-block and 0-length calls, judged at the absolute block index; in every other case the library\'s key and stream objects are allocated 8 mod 16 (misaligning allocator under the library)',
-                text='Seeded random and planned workload: key/block pairs, CTR streams under 3 partitions each (0-length, sub-block and multi-block calls), crypto_aesctr_buf, in-place, encrypt-twice, init2 re-use with and without a new key, streams of >300 and >70,000 blocks (2^24 in thorough) cut around blocks 255/256/65535/65536 on both the incremental and the bulk path, an exhaustive grid of 317 far-offset streams per build (7 boundaries x 9 start offsets x 5 crossing kinds + one 300..1300-block call per boundary), ONE crypto_aesctr_stream call of 2^32+d bytes followed by short calls, streams that run to the last byte (2^64 - 1) of the byte position, adjacent (not overlapping) input and output, builds with -DBROKEN_MM_LOADU_SI64 and with -march=native, an AES-NI implementation that is wrong for one key size only (the start-up self-test must notice and fall back), and allocation-failure histories in fresh processes (each allocation attempt of six key/stream histories refused once: what is produced must be right, what fails must report failure).',
+                text='Seeded random and planned workload: key/block pairs, CTR streams under 3 partitions each (0-length, sub-block and multi-block calls), crypto_aesctr_buf, in-place, encrypt-twice, init2 re-use with and without a new key, streams of >300 and >70,000 blocks (2^24 in thorough) cut around blocks 255/256/65535/65536 on both the incremental and the bulk path, an exhaustive grid of 317 far-offset streams per build (7 boundaries x 9 start offsets x 5 crossing kinds + one 300..1300-block call per boundary), ONE crypto_aesctr_stream call of 2^32+d bytes followed by short calls, streams that run to the last byte (2^64 - 1) of the byte position, adjacent (not overlapping) input and output, unrelated keys used (one-shot call and a second live stream) before every re-initialisation of the stream under test, builds with -DBROKEN_MM_LOADU_SI64 and with -march=native, an AES-NI implementation that is wrong for one key size only (the start-up self-test must notice and fall back), and allocation-failure histories in fresh processes (each allocation attempt of six key/stream histories refused once: what is produced must be right, what fails must report failure).',
                 note='Keys, nonces and partitions are sampled. Carries above block 2^16 rely on the seek hook (it sets the byte counter and counter block as after n whole blocks; nothing streams that far except a real 2^24-block stream in thorough). Streams stay below block 2^60 (the library\'s 64-bit byte position); block 2^64 is not defined by the statement. Inconclusive if the AES-NI build does not select AES-NI.'),
     'C03': dict(level='exploration', ref='4/C03',
                 technique='runtime monitoring of build variants: the alg/crypto objects compiled in every subset of {SHANI+SSSE3, SSE2, SSE42 32/64, AESNI}, with run-time detectors substituted to answer "absent", without CPUID (39 builds), plus 10 "self-test fails" variants in which the CPU reports the feature but the library\'s own start-up self-test of the implementation is made to fail once through the --wrap wrapper (49 configurations), plus 4 variants in which the AES-NI implementation is persistently wrong for one key size or round count only; one seeded workload, N-way comparison plus references; --wrap call counters prove which implementation ran and that a disabled implementation is never used afterwards; far-offset AES-CTR streams positioned with the LIBCPERCIVA_VERIF seek hook; in every other case the library\'s key and stream objects are allocated 8 mod 16',
@@ -73,7 +73,7 @@ CHECKS = {
                 note='A generated sample of byte strings plus exhaustive truncation/position enumeration of that sample. libc internals are trusted. Host-name forms of sock_resolve are excluded.'),
     'C16': dict(level='exploration', ref='4/C16',
                 technique='runtime monitoring under ASan+UBSan: the real PARSENUM/PARSENUM_EX instantiations for 15 target types and humansize/humansize_parse compared (return code, errno, stored value) with an exact-arithmetic Python model of the documented language; humansize output compared with a brute-force table of every representable string',
-                text='Every integer type x base 0 and 2..36 x values at the type limits and +-2^64 images, every humansize output value +-1, plus random numerals near bounds, 14 kinds of malformation, decimal/hex/inf/nan floats: 0.9M cases quick, 16M thorough.',
+                text='Every integer type x base 0 and 2..36 x values at the type limits and +-2^64 images, every humansize output value +-1 (half of them again under fesetround upward / downward / toward zero), plus random numerals near bounds, 14 kinds of malformation, decimal/hex/inf/nan floats: 0.9M cases quick, 16M thorough.',
                 note='Assumes LP64. Strings whose reading the documentation leaves open (0b prefixes, nan(, subnormal/overflowing floats, roundings straddling a bound) are dropped and counted; a string both malformed and out of range may fail with either errno.'),
     'C17': dict(level='exploration', ref='4/C17',
                 technique='runtime monitoring with differential oracles under ASan+UBSan in exact-size buffers: Python base64/binascii, arithmetic byte order, address bytes known by construction (cross-checked with ipaddress), known value offsets of generated JSON documents',
@@ -85,7 +85,7 @@ CHECKS = {
                 note='optarg compared only where a program can observe it; warnings are counted, their text is not compared; where the header is silent the model follows standard getopt. A GETOPT_OPT label falling through into a GETOPT_OPTARG label is outside the documented usage and not generated.'),
     'C19': dict(level='exploration', ref='4/C19',
                 technique='runtime monitoring under ASan+UBSan with time() interposed: all four aws_sign_* functions; signature, credential scope, content hash and query string re-derived from the returned timestamp by an independent Python SigV4 that reproduces the published AWS worked examples',
-                text='48k signatures quick, 1.9M thorough over ids/regions/buckets/services/ops/paths of 0..200 unreserved characters, printable-ASCII secrets, bodies absent/empty/1 B..100 KiB, the int expiry range, clock instants 1970..2100; over half the cases use a clock that ticks on every call at a day, leap-day or year boundary. The shards alternate between three builds of SHA-256 (SHA-NI, SSE2 only, portable C); histories of consecutive calls with one secret and day whose (region, service) pairs are different splits of one string.',
+                text='48k signatures quick, 1.9M thorough over ids/regions/buckets/services/ops/paths of 0..200 unreserved characters, printable-ASCII secrets, bodies absent/empty/1 B..100 KiB, the int expiry range, clock instants 1970..2100; over half the cases use a clock that ticks on every call at a day, leap-day or year boundary. The shards alternate between three builds of SHA-256 (SHA-NI, SSE2 only, portable C); histories of consecutive calls with one secret and day whose (region, service) pairs are different splits of one string; histories of related credentials (a secret, key id, region or service that is an extension, truncation or one-character variant of the previous call\'s, same day, all four variants).',
                 note='Paths are absolute. The timestamp must be an instant the interposed clock returned, in UTC. Acceptance by the live AWS service is out of scope.'),
     'C20': dict(level='exploration', ref='4/C20',
                 technique='runtime monitoring of the real objects in -O2, -O1+ASan/UBSan and (thorough) -O2 -flto builds, in four AES environments (AES-NI; compiled without it; compiled with it but the run-time detector answers absent; compiled with it but its self-test fails): context bytes read back after every *_Final with the context at every legal alignment (heap and stack); direct sweep of insecure_memzero over every length x offset; a free-time hook (under malloc/free via --wrap, with an opt-in allocator mode handing out blocks that are 8 mod 16, and under OpenSSL via CRYPTO_set_mem_functions) searches every released block for independently derived secret images; allocation-fault enumeration of the DH operations (each OpenSSL allocation refused in turn)',
